@@ -195,10 +195,10 @@ def _run_case(idx, beh, libpath, workdir, flavour):
     return rec
 
 
-def run_cases(ctx, behs, libpath, jobs):
+def run_cases(ctx, behs, libpath, jobs, first_id=1):
     work = os.path.join(ctx.tmp, "mods")
     os.makedirs(work, exist_ok=True)
-    args = [(i + 1, b, libpath, work, ctx.rng.randrange(8)) for i, b in enumerate(behs)]
+    args = [(i + first_id, b, libpath, work, ctx.rng.randrange(8)) for i, b in enumerate(behs)]
     if jobs <= 1:
         return [run_case(a) for a in args]
     with ProcessPoolExecutor(jobs) as ex:
@@ -225,8 +225,8 @@ def validate(ctx, recs, name="Trace_CdefOol"):
     """TLC gives the verdicts; returns {id: (V, D)}."""
     out = {}
     slim = [{k: r[k] for k in ("id", "beh", "inl", "ool", "same", "emit", "tables")} for r in recs]
-    for i in range(0, len(slim), 1500):
-        chunk = slim[i:i + 1500]
+    for i in range(0, len(slim), 1200):
+        chunk = slim[i:i + 1200]
         path = os.path.join(ctx.tmp, "trace_%d.json" % len(ctx.cov["tlc_runs"]))
         core.write_json(path, chunk)
         r = core.tlc("Trace_CdefOol", workers=1, env={"TRACE_FILE": path, "JAVA_TOOL_OPTIONS": "-Xss256m"}, timeout=1500)
@@ -569,7 +569,7 @@ def run(ctx):
         ctx.rng.shuffle(cand)
         # every single declaration the scenario offers (e.g. each boundary value) + a sample of the rest
         ones = [b for b in cand if len(b) == 1]
-        cand = ones + [b for b in cand if len(b) != 1][:max(0, (150 if quick else 700) - len(ones))]
+        cand = ones + [b for b in cand if len(b) != 1][:max(0, (120 if quick else 700) - len(ones))]
         for b in cand:
             kk = mg.beh_key(b)
             if b and kk not in keys:
@@ -581,10 +581,15 @@ def run(ctx):
     if missing:
         raise core.MachineryError("actions never taken in the dumped graphs: %s" % sorted(missing))
     ctx.cov["actions_replayed"] = labels
-    recs = run_cases(ctx, behs, libpath, jobs)
-    for r in recs:
+    # ---------------------------------------------------------------- code -> spec at real sizes
+    nrand = 24 if quick else 120
+    rbehs = [random_behaviour(ctx.rng, ctx.rng.randrange(3, 11 if quick else 18)) for _ in range(nrand)]
+    allrecs = run_cases(ctx, behs + rbehs, libpath, jobs)
+    recs, rrecs = allrecs[:len(behs)], allrecs[len(behs):]
+    for r in allrecs:
         ctx.case(mg.beh_key(r["beh"]))
-    verdicts = validate(ctx, [r for r in recs if "inline_error" not in r])
+    # one TLC start judges everything
+    verdicts = validate(ctx, [r for r in allrecs if "inline_error" not in r])
     divs, gf = judge(ctx, recs, verdicts, "TLC graph")
     if gf:
         raise core.MachineryError("%d behaviours taken from TLC were refused by the guards in trace validation" % gf)
@@ -593,15 +598,7 @@ def run(ctx):
                     "cdef": mg.render_cdef(r["beh"]), "module": r.get("module_text", "")[:600],
                     "verdict": [sorted(map(list, verdicts[r["id"]][0])), sorted(map(list, verdicts[r["id"]][1]))]
                     if r["id"] in verdicts else None}, limit=3)
-
-    # ---------------------------------------------------------------- code -> spec at real sizes
-    nrand = 24 if quick else 120
-    rbehs = [random_behaviour(ctx.rng, ctx.rng.randrange(3, 11 if quick else 18)) for _ in range(nrand)]
-    rrecs = run_cases(ctx, rbehs, libpath, jobs)
-    for r in rrecs:
-        ctx.case(mg.beh_key(r["beh"]))
-    rverd = validate(ctx, [r for r in rrecs if "inline_error" not in r], name="Trace_CdefOol(random)")
-    rdivs, rgf = judge(ctx, rrecs, rverd, "random generator")
+    rdivs, rgf = judge(ctx, rrecs, verdicts, "random generator")
     if rgf > nrand // 3:
         raise core.MachineryError("random generator: %d of %d behaviours violate the specification's guards" % (rgf, nrand))
     ctx.cov["random_guard_rejects"] = rgf
